@@ -11,15 +11,21 @@ import (
 
 func lexerCandidate(seed uint64) Candidate {
 	return func(i int) (*specgen.Spec, bool) {
+		// every ninth candidate carries the idiom of nullable rules that only
+		// switch modes; the others keep the sequence they had before
+		if i%9 == 8 {
+			return specgen.Generate(core.Derive(seed, "c11-cycle-spec", i/9), specgen.Options{RichLexer: true, Family: "nullable-mode-cycle"}), false
+		}
+		i -= (i + 1) / 9
 		return specgen.Generate(core.Derive(seed, "c11-spec", i), specgen.Options{RichLexer: true}), false
 	}
 }
 
 func CheckC11(tier string, seed uint64, rep *core.Reporter) (*core.Evidence, error) {
 	start := time.Now()
-	n, runs, batches := 24, 4000, 1
+	n, runs, batches := 27, 4000, 1
 	if tier == "thorough" {
-		n, runs, batches = 150, 20000, 3
+		n, runs, batches = 168, 20000, 3
 	}
 	if v := os.Getenv("VERIF_C11_SPECS"); v != "" {
 		fmt.Sscan(v, &n)
